@@ -586,7 +586,10 @@ def _expected_rows(segments: List[List[Stub]], sp) -> Dict[int, Dict[str, Option
 def eval_table_v2(chk, ta, segments: List[List[Stub]]) -> Dict[int, Dict[str, Any]]:
     repo = chk.repo
     pd = Stub("pandas", DataFrame=_DF)
-    env = {"self": Stub("structure", connected_residues=segments), "pd": pd, "pandas": pd, "np": _np_stub(), "numpy": _np_stub(), "calculate_torsion_angle": _tor_stub}
+    glob = {"pd": pd, "pandas": pd, "np": _np_stub(), "numpy": _np_stub(), "calculate_torsion_angle": _tor_stub}
+    # `self` stands for the structure: the segments are given, other members of the class the function calls (helpers, static methods) are interpreted
+    me = ClassStub(repo, T2, "Structure", {"connected_residues": segments}, glob, label="structure")
+    env = dict(glob, self=me, Structure=me)
     body = [s for s in ta.node.body if not (isinstance(s, ast.Expr) and isinstance(s.value, ast.Constant))]
     kind, val = BlockEvalX(repo, T2, env).run(body)
     if kind != "return":
@@ -1280,6 +1283,59 @@ class _Norm(float):
 
     def item(self):
         return float(self)
+
+
+# ---------------------------------------------------------------------------------------------------------------------
+# the arrays the torsion functions read are never written by code that only borrowed them
+# ---------------------------------------------------------------------------------------------------------------------
+_TORSION_FUNCS = ("calculate_torsion_angle_coords", "calculate_torsion_angle", "torsion_angle")
+
+
+def check_borrowed_arrays(chk) -> None:
+    """Every torsion is computed from arrays kept by the atoms (`atom.coordinates`, a cached_property: one array per atom for the
+    rest of its life) or handed in as parameters.  Fact: nowhere in the package an in-place numpy operation (+=, -=, *=, /=,
+    x[...] = v, out=x, x.fill / sort ...) is applied to such an array through a name that merely aliases it (sa/alias.py); a
+    running sum that starts with `acc = atoms[0].coordinates` would change that atom's coordinates for every later reader -
+    chi, the torsion table, cis/trans, a second centroid."""
+    repo = chk.repo
+    rule = "borrowed-array-write"
+    from sa import alias
+
+    try:
+        found, attrs, n_funcs = alias.findings(repo)
+    except Exception as ex:
+        chk.error(rule, "-", f"alias analysis failed: {type(ex).__name__}: {str(ex)[:120]}")
+        return
+    # attributes whose value reaches a torsion function: `<x>.attr` in an argument of a torsion function, or read from its atom parameters
+    feeds: set = set()
+    torsion_homes: set = set()
+    for fi in repo.all_funcs():
+        if fi.qualname in _TORSION_FUNCS:
+            torsion_homes.add((fi.module.name, fi.qualname))
+            feeds |= {n.attr for n in ast.walk(fi.node) if isinstance(n, ast.Attribute) and n.attr in attrs}
+        for c in ast.walk(fi.node):
+            if isinstance(c, ast.Call) and astq.callee_name(c) in _TORSION_FUNCS:
+                feeds |= {n.attr for a in c.args for n in ast.walk(a) if isinstance(n, ast.Attribute) and n.attr in attrs}
+    # locals handed to a torsion function are filled from `.coordinates` too (lists of coordinates): every array attribute named so counts
+    k = 0
+    for fi, node, name, src, attr, op in found:
+        in_torsion = (fi.module.name, fi.qualname) in torsion_homes
+        if not (attr in feeds or (attr == "parameter" and in_torsion)):
+            continue
+        k += 1
+        owner = "; ".join(attrs.get(attr, [])[:2]) if attr != "parameter" else "the caller's array"
+        chk.violation(
+            rule,
+            fi.site(node),
+            f"{op} `{name}`, which is not an array this function created but {src} ({owner}): the owner's numbers change for good, so every later reader of that array - "
+            "Residue3D.chi / chi_class, the torsion table, cis/trans, the next centroid - computes its torsion from corrupted coordinates, and the result depends on which query ran first. "
+            "Code that only reads coordinates must work on its own array (a copy, a sum built with `a + b`, numpy.mean)",
+            K(fi, f"borrowed:{attr}:{name}"),
+            expected="in-place numpy operations only on arrays created in the same function",
+            found={"written": name, "taken from": src, "attribute": attr},
+        )
+    if k == 0:
+        chk.ok(rule, "package", f"{n_funcs} functions read; array attributes that feed the torsion functions: {sorted(feeds) or '-'} ({'; '.join(x for a in sorted(feeds) for x in attrs[a][:2])}); no in-place numpy operation (+=, [..] =, out=, fill/sort ...) is applied to a name that aliases one of them or an array parameter of a torsion function")
 
 
 def check_chi(chk) -> None:
